@@ -63,40 +63,6 @@ theorem orig_loop_characterisation (l : List DA) (it : Nat) (h : l.Nodup) :
 
 example : ([⟨0, 5⟩, ⟨1, 5⟩, ⟨2, 6⟩] : List DA).Nodup := by decide
 
-/-- no two adjacent elements both satisfy `p` -/
-def NoAdjacent {α} (p : α → Bool) : List α → Prop
-  | x :: y :: rest => ¬(p x = true ∧ p y = true) ∧ NoAdjacent p (y :: rest)
-  | _ => True
-
-theorem skip_eq_filter_iff {α} (p : α → Bool) (l : List α) :
-    skipAfterRemoval p l = l.filter (fun x => !p x) ↔ NoAdjacent p l := by
-  fun_induction skipAfterRemoval p l with
-  | case1 => simp [NoAdjacent]
-  | case2 x hp => simp [NoAdjacent, hp]
-  | case3 x hp y ys ih =>
-    cases hy : p y with
-    | true =>
-      simp only [NoAdjacent, hp, hy, and_self, not_true_eq_false, false_and, iff_false]
-      intro h
-      have hm : y ∈ List.filter (fun x => !p x) (x :: y :: ys) := by rw [← h]; simp
-      have := (List.mem_filter.1 hm).2
-      simp [hy] at this
-    | false =>
-      have e : NoAdjacent p (x :: y :: ys) ↔ NoAdjacent p ys := by
-        cases ys with
-        | nil => simp [NoAdjacent, hy]
-        | cons z zs => simp [NoAdjacent, hy]
-      rw [e, ← ih]
-      simp [List.filter_cons, hp, hy]
-  | case4 x xs hp ih =>
-    have hp : p x = false := by simpa using hp
-    have e : NoAdjacent p (x :: xs) ↔ NoAdjacent p xs := by
-      cases xs with
-      | nil => simp [NoAdjacent]
-      | cons z zs => simp [NoAdjacent, hp]
-    rw [e, ← ih]
-    simp [List.filter_cons, hp]
-
 /-- exactly when did the original code meet the property?  On distinct arrays: iff no two ADJACENT arrays carry
     the intent to remove. -/
 theorem orig_correct_iff_no_adjacent (l : List DA) (it : Nat) (h : l.Nodup) :
@@ -256,23 +222,6 @@ theorem buffer_roundtrip (big : Bool) (w : Nat) (hw : 0 < w) (vals : List Nat) (
 theorem order_roundtrip (col : Bool) (shape elems : List Nat) (h : elems.length = prod shape) :
     fromOrder col shape (toOrder col shape elems) = elems :=
   fromOrder_toOrder col shape elems h
-
-/-- the facts about the code tables the round trip needs (decidable; instantiated for the REGENERATED tables in
-    `codes_pinned`) -/
-structure Codes.Distinct (K : Codes) : Prop where
-  a_b : K.encAscii ≠ K.encB64
-  a_g : K.encAscii ≠ K.encGz
-  b_g : K.encB64 ≠ K.encGz
-  e_b : K.encExt ≠ K.encB64
-  e_g : K.encExt ≠ K.encGz
-  end_ : K.endBig ≠ K.endLittle
-  ord : K.ordCol ≠ K.ordRow
-
-/-- contract of the external codecs: decode ∘ encode = id on byte strings; compress yields bytes -/
-structure CodecContract (X : Ext) (b64enc : List Nat → Text) (deflate : List Nat → List Nat) : Prop where
-  b64 : ∀ b : List Nat, (∀ x ∈ b, x < 256) → X.b64dec (b64enc b) = some b
-  zlib : ∀ b : List Nat, (∀ x ∈ b, x < 256) → X.inflate (deflate b) = some b
-  zbytes : ∀ b : List Nat, (∀ x ∈ b, x < 256) → ∀ x ∈ deflate b, x < 256
 
 /-- the contract is satisfiable (bytes ↔ characters of the same code, identity "compression") -/
 example : ∃ (X : Ext) (b64enc : List Nat → Text) (deflate : List Nat → List Nat), CodecContract X b64enc deflate := by
